@@ -139,6 +139,35 @@ def runSink (fixed : Bool) (ws : List (Nat × Bytes)) (ps : List Nat) (keep : Bo
   let parts := fmtList (fun (p : Nat × Bytes) => s!"{p.1}:{fmtBytes p.2}") (sortParts s.parts)
   s!"{err} ; dst{dst} ; parts={parts} ; dir={fmtBool s.dirExists}"
 
+/-- `dir|name|base` (`N` = no parts_base) -/
+def parseSinkCfg? (s : String) : Option SinkCfg :=
+  match s.splitOn "|" with
+  | [d, n, b] => some { dir := d, name := n, base := if b = "N" then none else some b }
+  | _ => none
+
+/-- `i:w:<part>:<letters>` or `i:f:<T|F>:<p1.p2...>` -/
+def parseSinkOp? (s : String) : Option (Nat × SinkOp) :=
+  match s.splitOn ":" with
+  | [i, "w", p, d] => do
+    let i ← i.toNat?; let p ← p.toNat?
+    pure (i, .write (p, parseBytes d))
+  | [i, "f", k, ps] => do
+    let i ← i.toNat?; let k ← parseBool? k
+    let ps ← if ps = "" then some [] else (ps.splitOn ".").mapM (·.toNat?)
+    pure (i, .finalise ps k)
+  | _ => none
+
+def fmtView (s : Sink) : String :=
+  let dst := match s.dst with | none => "N" | some b => "=" ++ fmtBytes b
+  let parts := fmtList (fun (p : Nat × Bytes) => s!"{p.1}:{fmtBytes p.2}") (sortParts s.parts)
+  s!"dst{dst} ; parts={parts} ; dir={fmtBool s.dirExists}"
+
+def runMSink (cfgs : List SinkCfg) (ops : List (Nat × SinkOp)) : String :=
+  let (fs, errs) := FS.run cfgs {} ops
+  let es := errs.map (fun e => match e with | none => "ok" | some e => e.toStr)
+  let views := cfgs.map (fun c => fmtView (fs.view c))
+  s!"{",".intercalate es} | {" | ".intercalate views}"
+
 def insertStr (x : String) : List String → List String
   | [] => [x]
   | y :: ys => if x ≤ y then x :: y :: ys else y :: insertStr x ys
@@ -155,6 +184,21 @@ def run (args : List String) : Option String :=
     let ks ← parseList? parseKindF? ks
     let sched ← parseList? parseNat? sched
     pure (runLocal fixed ks sched true)
+  | ["msink", cfgs, ops] => do
+    let cfgs ← parseList? parseSinkCfg? cfgs
+    let ops ← parseList? parseSinkOp? ops
+    pure (runMSink cfgs ops)
+  | ["parseurl", url] =>
+    let r := s3ParseUrl url
+    pure s!"{r.1} {r.2}"
+  | ["parseurl"] => pure " "
+  | ["mpuurl", b, k] => pure (mpuUrl b k)
+  | ["tokens", b, k, uid] =>
+    let uid := if uid = "-" then "" else uid
+    pure s!"{fmtList id (mpuToken b k uid)} {fmtList id (writerToken b k uid)}"
+  | ["sinktoken", c] => do
+    let c ← parseSinkCfg? c
+    pure (fmtList id (sinkToken c))
   | ["seq", ops] => do
     let ops ← parseList? parseSeqOp? ops
     pure (runSeq ops)
